@@ -182,7 +182,7 @@ def run_property(prop, tier, seed):
     extra = None
     if prop == "C13":
         extra = ["--cost-max-log2", "16" if tier == "quick" else "20"]
-    res = D.run_workers(exe, prop, seed, total, chunk, timeout_per_chunk=900, extra_args=extra)
+    res = D.run_workers(exe, prop, seed, total, chunk, timeout_per_chunk=(90 if tier == "quick" else 900), extra_args=extra)
     sig = D.distinct_sigs(exe, res.sig_files)
     cov = native_coverage(prop, res, sig)
     D.cleanup_outs(res)
